@@ -302,7 +302,41 @@ def blank_scanner_stops_only_at_non_blank(prog, rep, R):
     except TooComplex as e:
         rep.fail(R, "blank-scanner:table", "count_leading_whitespace can no longer be enumerated path by path: %s" % e)
         return
+    # library scans with a closure predicate P over the input's bytes / characters (`position`, `find`): `None` means that no element
+    # satisfies P, the element at the returned index satisfies P, everything in front of it does not
+    from table import run_concrete, vdesc
+    scans = []
+    for c in b.calls():
+        nm = (c.callee or "").split("::")[-1]
+        if nm in ("position", "find") and len(c.args) == 2 and c.args[1]["k"] in ("copy", "move") and not c.args[1]["place"]["p"]:
+            cb = prog.body(norm(b.locals[c.args[1]["place"]["l"]].get("closure") or ""))
+            if cb is None or cb.loops():
+                continue
+            try:
+                ctb = Table(prog, cb, inline=1)
+            except TooComplex:
+                continue
+
+            def pred(v, ctb=ctb, n=cb.arg_count):
+                res, _ = run_concrete(ctb, {"arg%d" % n: v})
+                return bool(eval_desc(vdesc(res), {"arg%d" % n: v}))
+            scans.append((nm, canon(b, c.args[0]), pred))
+
+    def scan_for(text):
+        for nm, recv, pred in scans:
+            if text.startswith("%s(%s," % (nm, recv)):
+                return recv, pred
+        return None
     bad, nexits, too_much = [], 0, []
+    for nm, recv, pred in scans:
+        try:
+            skipped = [v for v in range(256) if not pred(v)]
+        except Unknown:
+            continue
+        if "as_bytes(" in recv or "bytes(" in recv:
+            nb = [v for v in skipped if v > 0x20]
+            if nb:
+                too_much.append("%s(..): skips over %s" % (nm, ["U+%04X" % v for v in nb[:3]]))
     for where, tb in tables:
         for cons, res in tb.rows:
             if res.kind == "agg" and res.a and res.a[0] == "state":
@@ -333,6 +367,15 @@ def blank_scanner_stops_only_at_non_blank(prog, rep, R):
                 continue
             if any(c[0] == "cond" and c[2] != 0 and re.match(r"^is_empty\(", str(c[1])) for c in cons):
                 continue
+            # a library scan that found nothing: every element fails P; fine when everything that fails P is blank and all of it is counted
+            none_scan = [scan_for(str(c[1])) for c in cons if c[0] == "is" and c[2] == "None"]
+            none_scan = [x for x in none_scan if x]
+            if none_scan and "len(" in r:
+                try:
+                    if all(v <= 0x20 for v in range(256) if not none_scan[0][1](v)):
+                        continue
+                except Unknown:
+                    pass
             cmps = {}
             for c in cons:
                 m = re.match(r"^(Gt|Ge|Lt|Le|Eq|Ne)\((.+),(?:char:)?(\d+)\)$", str(c[1])) if c[0] == "cond" else None
@@ -342,8 +385,13 @@ def blank_scanner_stops_only_at_non_blank(prog, rep, R):
             for x, cs in cmps.items():
                 isbyte = "as_bytes(" in x or "bytes(" in x
                 cand = list(range(0, 256)) + ([] if isbyte else [0x2000, 0x2FFF, 0x3000, 0x3001, 0xFEFF, 0x1F600])
+                # `S[position(iter(S), P)@Some.0]`: the element the scan stopped at satisfies P
+                m2 = re.match(r"^(.+)\[((?:position|find)\(.+\))@Some\.0\]$", x)
+                found_by = scan_for(m2.group(2)) if m2 else None
                 try:
                     sat = [v for v in cand if all(bool(eval_desc(d.replace(x, "X"), {"X": v})) == (t != 0) for d, t in cs)]
+                    if found_by and m2.group(1) in found_by[0]:
+                        sat = [v for v in sat if found_by[1](v)]
                 except Unknown:
                     continue
                 blanks = [v for v in sat if v <= 0x20 or v == 0x3000 or (isbyte and v == 0xE3)]
